@@ -12,6 +12,7 @@ import (
 	"fmt"
 	"math/big"
 	"os"
+	"reflect"
 	"sort"
 	"strconv"
 	"testing"
@@ -178,6 +179,95 @@ func StubJSONValues() {}
 // Opaque reports whether the engine would treat s as an opaque string; always
 // false natively. Harnesses use it only to skip message text.
 func Opaque(s string) bool { return false }
+
+// Same reports structural equality of two values of the same type: pointers,
+// slices, maps and interfaces are followed (unexported fields included), a nil
+// slice or map equals an empty one, functions are equal only when both are
+// nil. The engine computes the same relation over its own value
+// representation, with symbolic leaves compared by the solver.
+func Same(a, b interface{}) bool {
+	if a == nil || b == nil {
+		return a == nil && b == nil
+	}
+	va, vb := reflect.ValueOf(a), reflect.ValueOf(b)
+	if va.Type() != vb.Type() {
+		return false
+	}
+	return sameValue(va, vb, 0)
+}
+
+func sameValue(a, b reflect.Value, depth int) bool {
+	if depth > 200 {
+		panic("zzverif.Same: structure deeper than 200 (cyclic?)")
+	}
+	switch a.Kind() {
+	case reflect.Ptr:
+		if a.IsNil() || b.IsNil() {
+			return a.IsNil() && b.IsNil()
+		}
+		if a.Pointer() == b.Pointer() {
+			return true
+		}
+		return sameValue(a.Elem(), b.Elem(), depth+1)
+	case reflect.Slice:
+		if a.Len() != b.Len() {
+			return false
+		}
+		for i := 0; i < a.Len(); i++ {
+			if !sameValue(a.Index(i), b.Index(i), depth+1) {
+				return false
+			}
+		}
+		return true
+	case reflect.Array:
+		for i := 0; i < a.Len(); i++ {
+			if !sameValue(a.Index(i), b.Index(i), depth+1) {
+				return false
+			}
+		}
+		return true
+	case reflect.Struct:
+		for i := 0; i < a.NumField(); i++ {
+			if !sameValue(a.Field(i), b.Field(i), depth+1) {
+				return false
+			}
+		}
+		return true
+	case reflect.Map:
+		if a.Len() != b.Len() {
+			return false
+		}
+		it := a.MapRange()
+		for it.Next() {
+			o := b.MapIndex(it.Key())
+			if !o.IsValid() || !sameValue(it.Value(), o, depth+1) {
+				return false
+			}
+		}
+		return true
+	case reflect.Interface:
+		if a.IsNil() || b.IsNil() {
+			return a.IsNil() && b.IsNil()
+		}
+		if a.Elem().Type() != b.Elem().Type() {
+			return false
+		}
+		return sameValue(a.Elem(), b.Elem(), depth+1)
+	case reflect.Func:
+		return a.IsNil() && b.IsNil()
+	case reflect.Bool:
+		return a.Bool() == b.Bool()
+	case reflect.Int, reflect.Int8, reflect.Int16, reflect.Int32, reflect.Int64:
+		return a.Int() == b.Int()
+	case reflect.Uint, reflect.Uint8, reflect.Uint16, reflect.Uint32, reflect.Uint64, reflect.Uintptr:
+		return a.Uint() == b.Uint()
+	case reflect.Float32, reflect.Float64:
+		return a.Float() == b.Float()
+	case reflect.String:
+		return a.String() == b.String()
+	}
+	panic("zzverif.Same: unsupported kind " + a.Kind().String())
+}
 
 // ---- mathematical integers for oracles ----
 
